@@ -3,6 +3,7 @@
 import functools
 import inspect
 import textwrap
+import types
 from collections.abc import MutableMapping, MutableSequence, MutableSet
 from typing import Any, Callable, Iterable, Optional
 
@@ -515,6 +516,8 @@ class DeepCopyMethod(MethodDescriptor):
             if attr == "__spec_class_initializing__":
                 continue  # A copy taken during initialisation is a finished instance.
             if inspect.ismethod(value) and value.__self__ is self:
+                # A method of this instance becomes the same method of the copy.
+                new.__dict__[attr] = types.MethodType(value.__func__, new)
                 continue
             attr_spec = self.__spec_class__.attrs.get(attr)
             if attr_spec and attr_spec.do_not_copy:
